@@ -185,9 +185,10 @@ class Gen(object):
         return out
 
     # ---- one body length
-    def length(self, n, heavy, allp):
+    def length(self, n, lv):
+        """lv: sweep 'full'|'reduced'|None; corrupt 'allp'|'edge'|'few'|None; datawin; padpos 'all'|'ends';
+        long 'heavy'|'light'; wfstep"""
         D, ver, block = self.D, self.ver, self.block
-        rnd = self.rnd
         if n < D + 1:
             # shorter than MAC + 1: must be refused whatever the content
             bases = [self.rbytes(n), bytes([n - 1 if n else 0]) * n, (self.mac(b"") + b"\0")[:n]]
@@ -199,33 +200,47 @@ class Gen(object):
                         self.add(g, [[n, v % 256]], "short")
             return
         maxp = min(255, n - 1 - D)
-        admissible = range(maxp + 1)
-        edge = {0, 1, block - 1, block, block + 1, maxp, maxp - 1, maxp // 2, 254, 255}
-        sweep_p = {min(maxp, n % 7), maxp}
-        for p in admissible:
+        edge = {0, 1, block - 1, block, maxp, maxp // 2}
+        if lv["corrupt"] == "edge":
+            edge |= {block + 1, maxp - 1, 254, 2 * block}
+        if lv["corrupt"] == "few":
+            edge = {0, maxp, 254}
+        sweep_p = min(maxp, n % 7)
+        step = lv.get("wfstep", 1)
+        for p in range(maxp + 1):
+            chosen = lv["corrupt"] and (lv["corrupt"] == "allp" or p in edge)
+            if not (chosen or p == sweep_p or p % step == 0 or p >= maxp - 1 or p < 2 * block + 2):
+                continue
             base = self.wellformed(n, p)
             L = n - p - 1 - D
             g = self.group(base)
             self.add(g, [], "wf", p)
-            if heavy and (allp or p in edge or (p + n) % 23 == 0):
-                # one wrong byte at every position of padding, MAC and the last 64 content bytes
-                for pos in range(max(1, L - 63), n):
+            if chosen:
+                # one wrong byte at every position of padding, MAC and the last `datawin` content bytes
+                first_pad = L + D + 1
+                for pos in range(max(1, L - lv["datawin"] + 1), n):
+                    if lv["padpos"] == "ends" and first_pad + 2 < pos < n - 2:
+                        continue
                     d = DELTAS[(pos + p) % 4]
                     cls = "cdata" if pos <= L else ("cmac" if pos <= L + D else "cpad")
                     self.add(g, [[pos, base[pos - 1] ^ d]], cls, p)
-                if p >= 1:       # padding byte off by one in value (p-1 / p+1), first and last padding byte
-                    for pos in {L + D + 1, n - 1}:
+                if p >= 1:       # padding byte off by one in value, first and last padding byte
+                    for pos in {first_pad, n - 1}:
                         self.add(g, [[pos, (base[pos - 1] + 1) % 256]], "cpad", p)
                         self.add(g, [[pos, (base[pos - 1] - 1) % 256]], "cpad", p)
-            if p in sweep_p:
-                for v in range(256):
+            if p == sweep_p and lv["sweep"]:
+                if lv["sweep"] == "full":
+                    vals = range(256)
+                else:
+                    vals = sorted(set(range(0, 2 * block + 2)) | set(range(max(0, maxp - 2), min(256, n + 3)))
+                                  | set(range(250, 256)) | set(range(0, 256, 16)))
+                for v in vals:
                     if v != p:
                         self.add(g, [[n, v]], "last", p)
-        # every value of the last byte with the rest built for that value:
-        # (a) v <= maxp is the well-formed set above; (b) v > maxp: padding longer than the body can hold
+        # padding longer than the body can hold (last byte v > maxp)
         vs = sorted({maxp + 1, maxp + 2, n - D, n - 2, n - 1, n, n + 1, 254, 255})
         vs = [v for v in vs if maxp < v <= 255]
-        if heavy:
+        if lv["long"] == "heavy":
             vs = sorted(set(vs) | {v for v in range(maxp + 1, 256) if (v + n) % 5 == 0})
         for v in vs:
             # all bytes equal v (a TLS padding check that clamps positions would pass)
@@ -237,13 +252,12 @@ class Gen(object):
             self.add(g, [], "long", v)
             # the MAC of the empty content at the start (where a clamped MAC position would look)
             body = bytearray(self.rbytes(n - k) + bytes([v]) * k)
-            m0 = self.mac(b"")
-            body[:D] = m0
+            body[:D] = self.mac(b"")
             body[-1] = v
             g = self.group(bytes(body))
             self.add(g, [], "overlap-mac0", v)
             if self.cfg["kind"] == "toy" and ver != 0:
-                # adversarial key: MAC of the empty content consists of the padding byte
+                # adversarial key: the MAC of the empty content consists of the padding byte
                 akey = toy_key_for(bytes([v]) * D, mac_input(ver, self.seq, self.ct, b""))
                 g = self.group(bytes([v]) * n, key=akey)
                 self.add(g, [], "overlap-key", v)
@@ -252,60 +266,99 @@ class Gen(object):
 
 
 def toy_configs(tier):
-    """(ver, cipher block, toy digest size, toy MAC block size)"""
-    main = [(0, 16, 20, 64), (1, 16, 20, 64), (2, 16, 20, 64), (3, 16, 20, 64), (0, 8, 20, 64), (3, 8, 32, 64)]
-    more = [(3, 16, 4, 8), (1, 16, 16, 64), (3, 16, 48, 128), (0, 16, 16, 64), (2, 8, 20, 64), (1, 8, 4, 8),
-            (0, 8, 48, 128), (2, 16, 32, 8)]
+    """(ver, cipher block, toy digest size, toy MAC block size); rank 0 = full enumeration"""
+    full = [(0, 16, 20, 64), (1, 16, 20, 64), (2, 16, 20, 64), (3, 16, 20, 64), (0, 8, 20, 64)]
+    mid = [(3, 8, 32, 64), (3, 16, 4, 8), (1, 16, 16, 64), (3, 16, 48, 128), (0, 16, 16, 64)]
+    low = [(2, 8, 20, 64), (1, 8, 4, 8), (0, 8, 48, 128), (2, 16, 32, 8)]
     out = []
-    for i, (ver, block, d, mb) in enumerate(main + more):
-        out.append({"kind": "toy", "ver": ver, "block": block, "dsize": d, "mblock": mb, "main": i < len(main),
-                    "name": "toy%d/%d" % (d, mb)})
+    for rank, lst in enumerate((full, mid, low if tier == "thorough" else [])):
+        for (ver, block, d, mb) in lst:
+            out.append({"kind": "toy", "ver": ver, "block": block, "dsize": d, "mblock": mb, "rank": rank,
+                        "name": "toy%d/%d" % (d, mb)})
     return out
 
 
 def leaf_configs(tier):
-    out = []
-    algs = [("md5", 16), ("sha1", 20), ("sha256", 32), ("sha384", 48)]
-    for ver in (0, 1, 2, 3):
-        for alg, d in algs:
-            if ver == 0 and alg not in ("md5", "sha1"):
-                continue        # MAC_SSL is defined for MD5 and SHA-1 only
-            if tier == "quick" and not (alg == "sha1" or (ver, alg) in ((0, "md5"), (3, "sha256"), (3, "sha384"), (1, "md5"))):
-                continue
-            for block in ((8, 16) if (ver == 0 or alg == "sha1") else (16,)):
-                out.append({"kind": "leaf", "ver": ver, "block": block, "dsize": d, "alg": alg, "main": False,
-                            "name": ("ssl3-" if ver == 0 else "hmac-") + alg})
-    return out
+    if tier == "quick":
+        lst = [(0, "md5", 8), (0, "sha1", 16), (1, "sha1", 16), (2, "sha1", 8), (3, "sha1", 16), (3, "sha256", 16),
+               (3, "sha384", 16), (1, "md5", 16)]
+    else:
+        lst = []
+        for ver in (0, 1, 2, 3):
+            for alg in ("md5", "sha1", "sha256", "sha384"):
+                if ver == 0 and alg not in ("md5", "sha1"):
+                    continue        # MAC_SSL is defined for MD5 and SHA-1 only
+                for block in ((8, 16) if (ver == 0 or (alg == "sha1" and ver == 3)) else (16,)):
+                    lst.append((ver, alg, block))
+    dsz = {"md5": 16, "sha1": 20, "sha256": 32, "sha384": 48}
+    return [{"kind": "leaf", "ver": ver, "block": block, "dsize": dsz[alg], "alg": alg, "rank": 3,
+             "name": ("ssl3-" if ver == 0 else "hmac-") + alg} for (ver, alg, block) in lst]
+
+
+def window_edges(cfg):
+    """body lengths around the 256-byte scanning windows of the implementation's algorithm class"""
+    D = cfg["dsize"]
+    mb = cfg.get("mblock", 128 if D >= 48 else 64)
+    e = {255, 256, 257, D + 255, D + 256, D + 257, D + 258}
+    e |= {256 + D + mb - 1, 256 + D + mb, 256 + D + mb + 1}
+    return e
 
 
 def lengths_for(cfg, tier):
-    """-> list of (n, heavy, allp)"""
-    D = cfg["dsize"]
-    mb = cfg.get("mblock", 64 if D < 48 else 128)
-    edges = set(range(253, 260)) | set(range(D + 253, D + 261))
-    for k in (0, 1):
-        edges |= {256 + D + k * mb - 1, 256 + D + k * mb, 256 + D + k * mb + 1}
+    """-> list of (n, level)"""
+    edges = window_edges(cfg)
     out = []
-    if cfg["kind"] == "toy":
-        top = 96 if tier == "quick" else 320
-        for n in range(0, top + 1):
-            if tier == "quick":
-                heavy = cfg["main"] or n % 3 == 0
-                allp = cfg["main"] and n <= 40
+    rank = cfg["rank"]
+    if cfg["kind"] == "toy" and tier == "quick":
+        for n in range(0, 97):
+            if rank == 0:
+                lv = {"sweep": "full", "corrupt": "allp" if n <= 40 else "edge" if n % 2 == 0 else "few",
+                      "datawin": 64 if n <= 40 else 16, "padpos": "all", "long": "heavy" if n % 8 == 0 else "light"}
             else:
-                heavy = cfg["main"] or n % 2 == 0 or n in edges
-                allp = (cfg["main"] and n <= 72) or (n <= 40)
-            out.append((n, heavy, allp))
+                lv = {"sweep": "reduced", "corrupt": "few" if n % 3 else None, "datawin": 8, "padpos": "all",
+                      "long": "light"}
+            out.append((n, lv))
         for n in sorted(edges):
-            if n > top:
-                out.append((n, cfg["main"], False))
-    else:
-        grid = set(range(0, 70 if tier == "quick" else 100, 3 if tier == "quick" else 1)) | {D, D + 1, D + 2}
-        grid |= {n for n in edges if tier == "thorough" or n % 2 == 0}
-        if tier == "thorough":
-            grid |= set(range(100, 330, 7))
+            if rank == 0 and cfg["block"] == 16:
+                out.append((n, {"sweep": "reduced", "corrupt": "few", "datawin": 4, "padpos": "ends", "long": "light",
+                                "wfstep": 1 if cfg["ver"] in (0, 3) else 4}))
+            elif n % 2 == 0:
+                out.append((n, {"sweep": None, "corrupt": "few", "datawin": 2, "padpos": "ends", "long": "light",
+                                "wfstep": 16}))
+    elif cfg["kind"] == "toy":
+        for n in range(0, 321):
+            if rank == 0:
+                heavy = n <= 96 or n % 8 == 0 or n in edges
+                lv = {"sweep": "full", "corrupt": "allp" if n <= 64 else ("edge" if heavy else "few"),
+                      "datawin": 64, "padpos": "all" if heavy else "ends",
+                      "long": "heavy" if (n <= 96 or n % 16 == 0) else "light"}
+            elif rank == 1:
+                heavy = n <= 64 or n % 16 == 0 or n in edges
+                lv = {"sweep": "full" if n % 4 == 0 else "reduced", "corrupt": "allp" if n <= 40 else ("edge" if heavy else "few"),
+                      "datawin": 32, "padpos": "all" if heavy else "ends", "long": "light",
+                      "wfstep": 1 if n <= 128 or n in edges else 8}
+            else:
+                lv = {"sweep": "reduced", "corrupt": "edge" if (n <= 64 or n in edges) else ("few" if n % 4 == 0 else None),
+                      "datawin": 16, "padpos": "all" if n <= 64 else "ends", "long": "light",
+                      "wfstep": 1 if n <= 96 else 16}
+            out.append((n, lv))
+        for n in sorted(edges):
+            if n > 320:
+                out.append((n, {"sweep": "reduced", "corrupt": "edge" if rank == 0 else "few", "datawin": 16,
+                                "padpos": "ends", "long": "light", "wfstep": 1 if rank == 0 else 8}))
+    elif tier == "quick":
+        D = cfg["dsize"]
+        grid = set(range(0, 70, 3)) | {D, D + 1, D + 2} | {n for n in edges if n % 2 == 0 and n < 300}
         for n in sorted(grid):
-            out.append((n, True, n <= 40 and tier == "thorough"))
+            out.append((n, {"sweep": "reduced", "corrupt": "edge" if n < 100 else "few", "datawin": 8,
+                            "padpos": "all" if n < 100 else "ends", "long": "light", "wfstep": 1 if n < 100 else 8}))
+    else:
+        grid = set(range(0, 100)) | set(range(100, 330, 7)) | edges
+        for n in sorted(grid):
+            out.append((n, {"sweep": "full" if n % 8 == 0 else "reduced",
+                            "corrupt": "allp" if n <= 40 else ("edge" if (n < 100 or n in edges) else "few"),
+                            "datawin": 32, "padpos": "all" if n < 100 else "ends", "long": "light",
+                            "wfstep": 1 if n < 100 or n in edges else 8}))
     return out
 
 
@@ -313,8 +366,8 @@ def fn_job(job):
     jid, cfg, lens, outdir = job
     rnd = random.Random(repr((env.SEED, "c12", cfg["name"], cfg["ver"], cfg["block"], jid)))
     g = Gen(cfg, rnd)
-    for (n, heavy, allp) in lens:
-        g.length(n, heavy, allp)
+    for (n, lv) in lens:
+        g.length(n, lv)
     path = os.path.join(outdir, "fn-%03d.json" % jid)
     with open(path, "w") as f:
         json.dump(g.groups, f, separators=(",", ":"))
@@ -322,6 +375,7 @@ def fn_job(job):
     st["path"] = path
     st["cfg"] = cfg
     st["weight"] = sum(len(x["vs"]) * (len(x["base"]) + 40) for x in g.groups)
+    st["ngroups"] = len(g.groups)
     st["keys"] = sorted(st["keys"])
     st["sample"] = None
     for x in g.groups:
@@ -376,30 +430,58 @@ def receiver(suite, ver, etm, keyblock):
     return rl, sock
 
 
-def ossl_cbc(cipher, key, iv, data):
+def ossl_ecb(cipher, key, data, decrypt=False):
+    """raw block cipher of the independent sender: `openssl enc -<cipher>-ecb` over many blocks at once"""
     if not data:
         return b""
-    p = subprocess.run(["openssl", "enc", "-" + cipher, "-e", "-nopad", "-K", key.hex(), "-iv", iv.hex()],
-                       input=bytes(data), stdout=subprocess.PIPE, stderr=subprocess.PIPE, timeout=60)
+    p = subprocess.run(["openssl", "enc", "-" + cipher, "-d" if decrypt else "-e", "-nopad", "-K", key.hex()],
+                       input=bytes(data), stdout=subprocess.PIPE, stderr=subprocess.PIPE, timeout=120)
     if p.returncode != 0 or len(p.stdout) != len(data):
         raise RuntimeError("openssl enc failed: %r" % p.stderr[-200:])
     return p.stdout
 
 
-def ossl_cbc_dec(cipher, key, iv, data):
-    if not data:
-        return b""
-    p = subprocess.run(["openssl", "enc", "-" + cipher, "-d", "-nopad", "-K", key.hex(), "-iv", iv.hex()],
-                       input=bytes(data), stdout=subprocess.PIPE, stderr=subprocess.PIPE, timeout=60)
-    if p.returncode != 0 or len(p.stdout) != len(data):
-        raise RuntimeError("openssl enc -d failed: %r" % p.stderr[-200:])
-    return p.stdout
+def _xor(a, b):
+    return bytes(x ^ y for x, y in zip(a, b))
+
+
+def cbc_encrypt_many(cipher, key, block, items):
+    """CBC (NIST SP 800-38A 6.2) of many (iv, plaintext) pairs under one key; the block cipher calls of
+    round r (block r of every message) go to openssl in one batch"""
+    out = [[] for _ in items]
+    prev = [iv for iv, _ in items]
+    r = 0
+    while True:
+        live = [i for i, (_, pt) in enumerate(items) if len(pt) >= (r + 1) * block]
+        if not live:
+            break
+        inp = b"".join(_xor(items[i][1][r * block:(r + 1) * block], prev[i]) for i in live)
+        enc = ossl_ecb(cipher, key, inp)
+        for k, i in enumerate(live):
+            c = enc[k * block:(k + 1) * block]
+            out[i].append(c)
+            prev[i] = c
+        r += 1
+    return [b"".join(x) for x in out]
+
+
+def cbc_decrypt_many(cipher, key, block, items):
+    """CBC decryption of many (iv, ciphertext) pairs: one batch of block cipher calls"""
+    dec = ossl_ecb(cipher, key, b"".join(ct for _, ct in items), decrypt=True)
+    out, off = [], 0
+    for iv, ct in items:
+        d = dec[off:off + len(ct)]
+        off += len(ct)
+        out.append(_xor(d, iv + ct[:len(ct) - block]))
+    return out
 
 
 class Sender(object):
-    """independent sender: key block partition per RFC 5246 6.3, MAC by stdlib, CBC by openssl"""
+    """independent sender: key block partition per RFC 5246 6.3, MAC by stdlib hmac/hashlib, CBC chaining in
+    the harness over openssl's raw block cipher"""
     def __init__(self, suite, ver, etm, keyblock):
-        _, self.cipher, klen, self.block, self.alg, self.D = SUITES[suite]
+        _, cbcname, klen, self.block, self.alg, self.D = SUITES[suite]
+        self.cipher = cbcname[:-4] + "-ecb"
         self.ver, self.etm = ver, etm
         self.mackey = keyblock[0:self.D]                                   # client_write_MAC_key
         self.key = keyblock[2 * self.D:2 * self.D + klen]                   # client_write_key
@@ -408,30 +490,37 @@ class Sender(object):
     def mac(self, seq, ct, content):
         return leaf_mac(self.ver, self.alg, self.mackey, mac_input(self.ver, seq, ct, content))
 
-    def wire(self, seq, ct, body, xiv, tamper=None):
-        """protect the (possibly corrupted) plaintext body; returns the record payload"""
-        iv = xiv if self.ver >= 2 else self.iv0
-        enc = ossl_cbc(self.cipher, self.key, iv, body)
-        payload = (xiv if self.ver >= 2 else b"") + enc
-        if self.etm:
-            payload += self.mac(seq, ct, payload)
-        if tamper:
-            kind, k = tamper
-            if kind == "flip":
-                b = bytearray(payload)
-                b[k % len(b)] ^= 0x04
-                payload = bytes(b)
-            elif kind == "cut":
-                payload = payload[:len(payload) - k]
-        return payload
+    def protect_many(self, cases):
+        """cases: dicts with seq, ct, body, xiv, tamper; sets c['payload'] (record payload as presented)"""
+        items = [((c["xiv"] if self.ver >= 2 else self.iv0), bytes(c["body"])) for c in cases]
+        encs = cbc_encrypt_many(self.cipher, self.key, self.block, items)
+        for c, enc in zip(cases, encs):
+            payload = (c["xiv"] if self.ver >= 2 else b"") + enc
+            if self.etm:
+                payload += self.mac(c["seq"], c["ct"], payload)
+            if c["tamper"]:
+                kind, k = c["tamper"]
+                if kind == "flip":
+                    b = bytearray(payload)
+                    b[k % len(b)] ^= 0x04
+                    payload = bytes(b)
+                elif kind == "cut":
+                    payload = payload[:len(payload) - k]
+            c["payload"] = payload
 
-    def open_body(self, ctext):
-        """what the presented ciphertext decrypts to (independent decryption, for tampered records)"""
-        if len(ctext) % self.block or not ctext:
-            return b""
-        if self.ver >= 2:
-            return ossl_cbc_dec(self.cipher, self.key, ctext[:self.block], ctext[self.block:])
-        return ossl_cbc_dec(self.cipher, self.key, self.iv0, ctext)
+    def open_many(self, ctexts):
+        """what presented ciphertexts decrypt to (independent decryption, for tampered records)"""
+        idx = [i for i, c in enumerate(ctexts) if c and len(c) % self.block == 0 and
+               (self.ver < 2 or len(c) > self.block)]
+        items = []
+        for i in idx:
+            c = ctexts[i]
+            items.append((c[:self.block], c[self.block:]) if self.ver >= 2 else (self.iv0, c))
+        out = [b""] * len(ctexts)
+        if items:
+            for i, d in zip(idx, cbc_decrypt_many(self.cipher, self.key, self.block, items)):
+                out[i] = d
+        return out
 
 
 def present(suite, ver, etm, keyblock, seqnum, ct, payload):
@@ -482,23 +571,74 @@ def rec_job(job):
     snd = Sender(suite, ver, etm, keyblock)
     slow = suite.startswith("3des")
     groups = []
+    cases = []
     stats = {"n": 0, "true": 0, "classes": {}, "exc": [], "keys": set()}
 
-    def show(g, edits, cls, sp, content, tamper=None):
+    def plan(g, edits, cls, sp, tamper=None):
         body = bytearray(g["base"])
         for pos, val in edits:
             body[pos - 1] = val
-        xiv = bytes(rnd.getrandbits(8) for _ in range(block))
-        payload = snd.wire(g["_seq"], g["ct"], bytes(body), xiv, tamper)
+        cases.append({"g": g, "edits": edits, "cls": cls, "sp": sp, "tamper": tamper, "body": body,
+                      "seq": g["_seq"], "ct": g["ct"], "xiv": bytes(rnd.getrandbits(8) for _ in range(block))})
+
+    # ---- phase 1: what to send
+    for p in pads:
+        seqnum = rnd.choice((0, 1, 255, 256, 2 ** 32 - 1, 2 ** 63 + 5, rnd.getrandbits(48)))
+        seq = seqnum.to_bytes(8, "big")
+        ct = rnd.choice((21, 22, 23))
+        content = bytes(rnd.getrandbits(8) for _ in range(clen))
+        plain = content if etm else content + snd.mac(seq, ct, content)
+        if ver == 0:
+            pad = bytes((p + 1 + rnd.getrandbits(7)) % 256 for _ in range(p))
+        else:
+            pad = bytes([p]) * p
+        base = plain + pad + bytes([p])
+        conforming = (len(plain) + p + 1) % block == 0 and p <= 255 and (ver != 0 or p < block)
+        g = {"kind": "etm" if etm else "rec", "ver": ver, "block": block, "macLen": D, "seq": list(seq), "ct": ct,
+             "key": [], "base": list(base), "ctlen": len(base) + (block if ver >= 2 else 0), "vs": [],
+             "kb": keyblock.hex(), "_seq": seq, "_seqnum": seqnum}
+        groups.append(g)
+        plan(g, [], "wf" if conforming else "nonconforming-pad", conforming)
+        # single-byte corruptions of the plaintext before encryption
+        n = len(base)
+        if tier == "thorough" and not slow:
+            positions = list(range(1, n + 1))
+        else:
+            k = 6 if slow else 10
+            pos = {1, 2, len(content), len(content) + 1, len(plain), len(plain) + 1, n - 1, n}
+            pos |= {rnd.randrange(1, n + 1) for _ in range(k)}
+            positions = sorted(x for x in pos if 1 <= x <= n)
+            if slow and p not in (pads[0], pads[-1], pads[len(pads) // 2]) and tier == "quick":
+                positions = positions[:3]
+        for pos in positions:
+            d = DELTAS[(pos + p) % 4]
+            cls = "cdata" if pos <= len(content) else ("cmac" if pos <= len(plain) else "cpad")
+            plan(g, [[pos, base[pos - 1] ^ d]], cls, False)
+        # every value of the padding-length byte (before encryption)
+        if p == pads[0] and (not slow or n <= 32):
+            vals = range(256) if tier == "thorough" else sorted(set(range(0, 2 * block + 2)) | set(range(0, 256, 32)) | {255})
+            for v in vals:
+                if v != p:
+                    plan(g, [[n, v]], "last", False)
+        # tampering after protection (ciphertext / tag), truncation to a broken block
+        for t in ((("flip", 0), ("flip", -1), ("flip", len(base) // 2), ("cut", 1), ("cut", block))
+                  if (p in (pads[0], pads[-1])) else (("flip", -1),)):
+            plan(g, [], "wire-" + t[0], False, tamper=t)
+    # ---- phase 2: protect (batched block cipher calls), independent decryption of tampered ciphertexts
+    snd.protect_many(cases)
+    tampered = [c for c in cases if c["tamper"]]
+    opened = snd.open_many([c["payload"][:max(0, len(c["payload"]) - (D if etm else 0))] for c in tampered])
+    for c, body in zip(tampered, opened):
+        c["eff"] = bytearray(body)
+    # ---- phase 3: present to the receiver, log
+    for c in cases:
+        g, payload = c["g"], c["payload"]
         acc, data, how = present(suite, ver, etm, keyblock, g["_seqnum"], g["ct"], payload)
-        v = {"e": [list(e) for e in edits], "v": acc, "c": cls, "sp": sp,
+        v = {"e": [list(e) for e in c["edits"]], "v": acc, "c": c["cls"], "sp": c["sp"],
              "data": list(data) if data is not None else [], "how": how,
-             "t": list(tamper) if tamper else [], "xiv": list(xiv)}
+             "t": list(c["tamper"]) if c["tamper"] else [], "xiv": list(c["xiv"])}
         ctlen = len(payload) - (D if etm else 0)
-        eff = body
-        if tamper:
-            # the body the receiver sees is whatever the presented ciphertext decrypts to
-            eff = bytearray(snd.open_body(payload[:max(0, ctlen)]))
+        eff = c.get("eff", c["body"])      # the body the receiver sees
         if etm:
             v["tag"] = list(payload[len(payload) - D:]) if len(payload) >= D else []
             v["wmac"] = list(snd.mac(g["_seq"], g["ct"], payload[:max(0, len(payload) - D)]))
@@ -510,64 +650,18 @@ def rec_job(job):
                 for l in sorted({L - 1, L, L + 1, 0}):
                     if 0 <= l <= n - D:
                         v["m"].append([l, list(snd.mac(g["_seq"], g["ct"], bytes(eff[:l])))])
-        if tamper:
-            g2 = dict(g, base=list(eff), ctlen=ctlen, vs=[dict(v, e=[])], orig=list(body))
-            groups.append(g2)
+        if c["tamper"]:
+            groups.append(dict(g, base=list(eff), ctlen=ctlen, vs=[dict(v, e=[])], orig=list(c["body"])))
         else:
             g["vs"].append(v)
         stats["n"] += 1
         stats["true"] += 1 if acc else 0
-        stats["classes"][cls] = stats["classes"].get(cls, 0) + 1
-        stats["keys"].add((cls, len(body), body[-1] if body else -1))
+        stats["classes"][c["cls"]] = stats["classes"].get(c["cls"], 0) + 1
+        stats["keys"].add((c["cls"], len(c["body"]), c["body"][-1] if c["body"] else -1))
         if how.startswith("EXC") or how in ("wouldblock", "type-changed"):
-            stats["exc"].append({"cls": cls, "suite": suite, "ver": ver, "etm": etm, "n": len(body), "exc": how,
+            stats["exc"].append({"cls": c["cls"], "suite": suite, "ver": ver, "etm": etm, "n": len(c["body"]),
+                                 "exc": how, "cfg": cfg,
                                  "group": {k: x for k, x in dict(g, vs=[v]).items() if not k.startswith("_")}})
-
-    for p in pads:
-        seqnum = rnd.choice((0, 1, 255, 256, 2 ** 32 - 1, 2 ** 63 + 5, rnd.getrandbits(48)))
-        seq = seqnum.to_bytes(8, "big")
-        ct = rnd.choice((21, 22, 23))
-        content = bytes(rnd.getrandbits(8) for _ in range(clen))
-        if etm:
-            plain = content
-        else:
-            plain = content + snd.mac(seq, ct, content)
-        if ver == 0:
-            pad = bytes((p + 1 + rnd.getrandbits(7)) % 256 for _ in range(p))
-        else:
-            pad = bytes([p]) * p
-        base = plain + pad + bytes([p])
-        conforming = (len(plain) + p + 1) % block == 0 and p <= 255 and (ver != 0 or p < block)
-        g = {"kind": "etm" if etm else "rec", "ver": ver, "block": block, "macLen": D, "seq": list(seq), "ct": ct,
-             "key": [], "base": list(base), "ctlen": len(base) + (block if ver >= 2 else 0), "vs": [],
-             "kb": keyblock.hex(), "_seq": seq, "_seqnum": seqnum}
-        groups.append(g)
-        show(g, [], "wf" if conforming else "nonconforming-pad", conforming, content)
-        # single-byte corruptions of the plaintext before encryption
-        n = len(base)
-        if tier == "thorough" and not slow:
-            positions = list(range(1, n + 1))
-        else:
-            k = 6 if slow else 24
-            pos = {1, 2, len(content), len(content) + 1, len(plain), len(plain) + 1, n - 1, n}
-            pos |= {rnd.randrange(1, n + 1) for _ in range(k)}
-            positions = sorted(x for x in pos if 1 <= x <= n)
-            if slow and p not in (pads[0], pads[-1], pads[len(pads) // 2]) and tier == "quick":
-                positions = positions[:3]
-        for pos in positions:
-            d = DELTAS[(pos + p) % 4]
-            cls = "cdata" if pos <= len(content) else ("cmac" if pos <= len(plain) else "cpad")
-            show(g, [[pos, base[pos - 1] ^ d]], cls, False, content)
-        # every value of the padding-length byte (before encryption)
-        if p == pads[0] and (not slow or n <= 32):
-            vals = range(256) if tier == "thorough" else sorted(set(range(0, 2 * block + 2)) | set(range(0, 256, 8)) | {255})
-            for v in vals:
-                if v != p:
-                    show(g, [[n, v]], "last", False, content)
-        # tampering after protection (ciphertext / tag), truncation to a broken block
-        for t in ((("flip", 0), ("flip", -1), ("flip", len(base) // 2), ("cut", 1), ("cut", block))
-                  if (p in (pads[0], pads[-1])) else (("flip", -1),)):
-            show(g, [], "wire-" + t[0], False, content, tamper=t)
     path = os.path.join(outdir, "rec-%03d.json" % jid)
     for g in groups:
         for k in [k for k in g if k.startswith("_")]:
@@ -577,6 +671,7 @@ def rec_job(job):
     stats["path"] = path
     stats["cfg"] = cfg
     stats["weight"] = sum(len(x["vs"]) * (len(x["base"]) + 40) for x in groups)
+    stats["ngroups"] = len(groups)
     stats["keys"] = sorted(stats["keys"])
     stats["sample"] = dict(groups[0], vs=groups[0]["vs"][:2]) if groups else None
     return stats
@@ -606,29 +701,58 @@ def rec_jobs(tier, outdir, jid0):
 
 
 # ------------------------------------------------------------------ TLC
-def judge(rep, stats_list, label):
-    """run CBCCheck over every job file (parallel JVMs); returns list of (stats, g, i, expected)"""
+def judge(rep, stats_list, label, nbins=16):
+    """merge the job files into <= nbins balanced batches, run CBCCheck over each (parallel JVMs);
+    returns list of (stats, group index in the job's file, variant index, expected)"""
     bad = []
+    stats_list = [s for s in stats_list if s["n"]]
+    if not stats_list:
+        return bad
+    bins = [[] for _ in range(min(nbins, len(stats_list)))]
+    loads = [0] * len(bins)
+    for st in sorted(stats_list, key=lambda s: -s["weight"]):
+        i = loads.index(min(loads))
+        bins[i].append(st)
+        loads[i] += st["weight"]
+    outdir = os.path.dirname(stats_list[0]["path"])
+    batches = []
+    for bi, b in enumerate(bins):
+        path = os.path.join(outdir, "batch-%s-%02d.json" % (label, bi))
+        with open(path, "w") as f:
+            f.write("[")
+            first = True
+            for st in b:
+                inner = open(st["path"]).read().strip()[1:-1]
+                if inner:
+                    f.write(("" if first else ",") + inner)
+                    first = False
+            f.write("]")
+        batches.append((path, b))
 
-    def one(st):
-        name = os.path.basename(st["path"])[:-5]
-        r = tlc.run("CBCCheck.tla", "cfg/CBC_check.cfg", os.path.join(rep.outdir, "tlc-" + name), workers=1,
-                    env_extra={"TRACE_FILE": st["path"]}, timeout=1500, heap="2g")
-        return st, r
-    order = sorted(stats_list, key=lambda s: -s["weight"])
+    def one(batch):
+        path, b = batch
+        r = tlc.run("CBCCheck.tla", "cfg/CBC_check.cfg", os.path.join(rep.outdir, "tlc-" + os.path.basename(path)[:-5]),
+                    workers=1, env_extra={"TRACE_FILE": path}, timeout=2400, heap="3g")
+        return batch, r
     with ThreadPoolExecutor(max_workers=16) as ex:
-        for st, r in ex.map(one, order):
-            rep.add_tlc(r, "%s %s (%d variants)" % (label, os.path.basename(st["path"]), st["n"]))
+        for (path, b), r in ex.map(one, batches):
+            n = sum(st["n"] for st in b)
+            rep.add_tlc(r, "%s %s (%d cases)" % (label, os.path.basename(path), n))
             if r.violated:
-                rep.machinery_errors.append("CBCCheck reported %s on %s" % (r.violated, st["path"]))
-            elif not r.error and r.distinct != st["n"]:
-                rep.machinery_errors.append("CBCCheck judged %d of %d variants in %s" % (r.distinct, st["n"], st["path"]))
-            else:
-                rep.traces += st["n"]
+                rep.machinery_errors.append("CBCCheck reported %s on %s" % (r.violated, path))
+            elif not r.error and r.distinct != n:
+                rep.machinery_errors.append("CBCCheck judged %d of %d cases in %s" % (r.distinct, n, path))
+            elif not r.error:
+                rep.traces += n
             for line in r.prints:
                 if line.startswith('<<"BAD"'):
                     parts = line.strip("<>").split(",")
-                    bad.append((st, int(parts[1]), int(parts[2]), parts[3].strip()))
+                    gi = int(parts[1])
+                    for st in b:
+                        if gi <= st["ngroups"]:
+                            bad.append((st, gi, int(parts[2]), parts[3].strip()))
+                            break
+                        gi -= st["ngroups"]
     return bad
 
 
@@ -657,13 +781,15 @@ def report_bad(rep, bad):
             shape = "sslv3-pad-%s-block" % ("eq" if p == g["block"] else "gt")
         elif exp == "FALSE" and len(body) >= g["macLen"] + 1 and len(body) - p - 1 - g["macLen"] < 0:
             shape = "pad-and-mac-overlap"
-        key = {"where": where, "kind": g["kind"], "ver": "3.%d" % g["ver"], "block": g["block"], "mac": mac,
-               "class": shape, "impl": str(v["v"]), "spec": exp}
+        key = {"where": where, "ver": "3.%d" % g["ver"], "class": shape, "impl": str(v["v"]), "spec": exp}
         k = json.dumps(key, sort_keys=True)
         if k not in agg:
             agg[k] = [key, 0, {"part": g["kind"], "cfg": cfg, "group": dict(g, vs=[v]), "body_len": len(body),
-                               "last_byte": p, "impl": v["v"], "spec": exp, "how": v.get("how")}]
+                               "last_byte": p, "impl": v["v"], "spec": exp, "how": v.get("how"), "by_config": {}}]
         agg[k][1] += 1
+        bc = agg[k][2]["by_config"]
+        ck = "%s/%s/block%d" % (g["kind"], mac, g["block"])
+        bc[ck] = bc.get(ck, 0) + 1
     for k in sorted(agg):
         key, cnt, detail = agg[k]
         detail["count"] = cnt
@@ -671,7 +797,7 @@ def report_bad(rep, bad):
 
 
 def run(tier):
-    rep = evidence.Report(PID, tier, level="oracle_evaluation")
+    rep = evidence.Report(PID, tier)
     rep.rule = ("case = one body (or record) shown to the implementation and judged by TLC against CBC!CbcOk: "
                 "parts 1/2: for every body length and every padding length that fits: the well-formed body, one wrong "
                 "byte at every position of padding / MAC / last 64 content bytes, all 256 values of the last byte, "
@@ -695,7 +821,7 @@ def run(tier):
     for cfg in toy_configs(tier) + leaf_configs(tier):
         lens = lengths_for(cfg, tier)
         # cost grows with n: deal lengths round-robin into sub-jobs
-        nsub = (6 if cfg["main"] else 3) if cfg["kind"] == "toy" else 2
+        nsub = {0: 8, 1: 4, 2: 2, 3: 2}[cfg["rank"]]
         if tier == "quick":
             nsub = max(1, nsub // 2)
         for s in range(nsub):
@@ -704,10 +830,13 @@ def run(tier):
     with Pool(16) as pool:
         a1 = pool.map_async(fn_job, jobs, chunksize=1)
         a2 = pool.map_async(rec_job, rjobs, chunksize=1)
+        t0 = env.real_time()
         fstats = a1.get()
-        bad = judge(rep, fstats, "function")
         rstats = a2.get()
-    bad += judge(rep, rstats, "records")
+    t1 = env.real_time()
+    bad = judge(rep, fstats + rstats, "all")
+    rep.notes["wall_impl_s"] = round(t1 - t0, 1)
+    rep.notes["wall_tlc_s"] = round(env.real_time() - t1, 1)
     allst = fstats + rstats
     for st in allst:
         cfg = st["cfg"]
@@ -736,6 +865,19 @@ def run(tier):
     return rep.finish()
 
 
+class _ReplayRep(object):
+    """stand-in for evidence.Report during --replay (a Report would clear the replay directory)"""
+    def __init__(self):
+        self.outdir = os.path.join(evidence.OUT, PID, "replay-run")
+        os.makedirs(self.outdir, exist_ok=True)
+        self.machinery_errors = []
+        self.traces = 0
+
+    def add_tlc(self, r, what=""):
+        if r.error:
+            self.machinery_errors.append("%s: %s" % (what, r.error))
+
+
 def replay(path):
     d = json.load(open(path))["detail"]
     g = d["group"]
@@ -755,16 +897,21 @@ def replay(path):
     else:
         kb = bytes.fromhex(g["kb"])
         snd = Sender(cfg["suite"], cfg["ver"], cfg["etm"], kb)
-        payload = snd.wire(bytes(g["seq"]), g["ct"], bytes(g.get("orig", body)), bytes(v["xiv"]),
-                           tuple(v["t"]) if v["t"] else None)
+        case = {"seq": bytes(g["seq"]), "ct": g["ct"], "body": bytes(g.get("orig", body)), "xiv": bytes(v["xiv"]),
+                "tamper": tuple(v["t"]) if v["t"] else None}
+        snd.protect_many([case])
+        payload = case["payload"]
         acc, data, how = present(cfg["suite"], cfg["ver"], cfg["etm"], kb, int.from_bytes(bytes(g["seq"]), "big"),
                                  g["ct"], payload)
         v["v"], v["data"], v["how"] = acc, (list(data) if data is not None else []), how
         print("implementation: accepted=%s delivered=%s bytes (%s)" % (acc, len(v["data"]), how))
-    rep = evidence.Report(PID, "quick")
+    rep = _ReplayRep()
     p = os.path.join(rep.outdir, "replay-case.json")
     json.dump([g], open(p, "w"))
-    bad = judge(rep, [{"path": p, "n": 1, "weight": 1, "cfg": cfg}], "replay")
+    bad = judge(rep, [{"path": p, "n": 1, "weight": 1, "cfg": cfg, "ngroups": 1}], "replay")
+    if rep.machinery_errors:
+        print("MACHINERY-ERROR: " + rep.machinery_errors[0][:1500])
+        return 2
     print("body length %d last byte %d; TLC: %s" % (len(body), body[-1] if body else -1,
                                                      "DISAGREES, spec says %s" % bad[0][3] if bad else "agrees"))
     return 1 if bad else 0
